@@ -80,7 +80,10 @@ func (s *Stream) handleResultChannelBackpressure(results []map[string]any) {
 		// Try to clean some old data to make room for new data
 		select {
 		case <-s.resultChan:
-			// Clean one old result, then try to add new result
+			// Clean one old result, then try to add new result. The evicted
+			// result never reaches the reader, so it counts as dropped.
+			s.logDroppedDataWithThrottling()
+			s.mOutputDropped.Inc()
 			select {
 			case s.resultChan <- results:
 				s.mOutput.Inc()
